@@ -1645,6 +1645,9 @@ class Engine:
             return VBool(app("first_occ", a.t, b.t, sort="Bool"))
         params = [a.arg for a in fn.args.args]
         args = [self.ev(a, env, st) for a in node.args]
+        if len(args) < len(params) and len(params) - len(args) <= len(fn.args.defaults):
+            for d in fn.args.defaults[len(fn.args.defaults) - (len(params) - len(args)):]:
+                args.append(self.ev(d, {}, st))
         if len(args) != len(params):
             raise Unsupported(f"helper {name} arity")
         body = [s for s in fn.body if not (isinstance(s, ast.Expr) and isinstance(s.value, ast.Constant))]
